@@ -733,14 +733,6 @@ End Equiv.
 (* ---------- the mechanical inliner of Schema/Link.v (the harness's metamorphic partner) ---------- *)
 (* side condition: scope tables hold objects (in Go: map[string]*ObjectSchema), checked at every
    self-namespace reference *)
-Definition ref_obj (e : env) (s : schema) : bool :=
-  match s with
-  | SRef id ns _ =>
-      if String.eqb ns "" then match alookup id (e_self e) with Some o => is_obj o | None => true end else true
-  | _ => true
-  end.
-Definition refs_to_objects (e : env) (s : schema) : bool := all_env ref_obj e && all_nodes ref_obj e s.
-
 Lemma inv_scope_all P e objs root io : Inv P e (SScope objs root) -> In io objs -> Inv P (env_enter e objs) (snd io).
 Proof.
   intros [He H] Hin. cbn in H. apply andb_prop in H. destruct H as [_ H].
@@ -781,12 +773,16 @@ Proof.
     apply (IH (env_enter e objs) stop (snd io)). eapply inv_scope_all; eauto.
 Qed.
 
+Lemma refs_to_objects_inv e s : refs_to_objects e s = true -> Inv ref_obj e s.
+Proof. unfold refs_to_objects, Inv. intros H. apply andb_prop in H. exact H. Qed.
+
+Lemma inline_refs_inlines : forall n e stop s, refs_to_objects e s = true ->
+  inlines_to e s (inline_refs n (e_self e) stop s).
+Proof. intros n e stop s H. apply inline_refs_inl. apply refs_to_objects_inv. exact H. Qed.
+
 Section InlineRefs.
 Variable words : list (string * bool).
 Variable pu : units -> string -> option fl.
-
-Lemma refs_to_objects_inv e s : refs_to_objects e s = true -> Inv ref_obj e s.
-Proof. unfold refs_to_objects, Inv. intros H. apply andb_prop in H. exact H. Qed.
 
 (* the full statement of C14_inline_equiv for the inliner: same environment, same fuel, any number
    of inlining rounds n and any stop list *)
